@@ -14,7 +14,7 @@ ALPHABET = [
     "permit ip any any", "permit tcp any any eq 80", "permit tcp any any", "deny tcp any any eq 80", "deny ip any any",
     "permit tcp host 10.0.0.1 any eq 80", "permit ip object-group EMPTY any", "permit tcp any any lt 1", "remark r1",
     "permit ip 10.0.0.0 0.0.1.3 any", "permit ip 10.0.0.0 0.0.0.3 any", "permit tcp any any syn fin", "permit tcp host 10.0.0.1 any ack syn",
-    "permit 200 any any", "permit 201 any any",
+    "permit 200 any any", "permit 201 any any", "permit ip 10.0.0.0 128.0.0.255 any", "permit ip 138.0.0.0 0.0.0.255 any",
 ]
 
 
